@@ -1,6 +1,13 @@
 package main
 
 // C16 — streams: LimitReadCloser / MultiReaderCloser / TeeReadCloser against coq/C16.
+//
+// Every wrapper is consumed through every path the io package can take (Read loops, io.ReadAll,
+// io.Copy to a plain Writer and to an io.ReaderFrom, io.CopyBuffer, io.CopyN, ReadByte when the
+// wrapper has it).  The copy paths are given the BARE wrapper, so that a fast-path method the
+// wrapper has (io.WriterTo today for MultiReaderCloser; anything it may grow) is the one io.Copy
+// takes; the method set of each wrapper is probed by interface assertion and checked against the
+// model's table (Model.v [implements]).
 
 import (
 	"encoding/json"
@@ -16,25 +23,85 @@ import (
 )
 
 type c16Consumer struct {
-	Kind  string `json:"kind"` // loop | readall | copy
-	Sizes []int  `json:"sizes,omitempty"`
+	// loop | readall | copy | copyrf | copybuf | copyn | bytes
+	Kind string `json:"kind"`
+	// loop: buffer sizes (the last one repeats); copyrf: the sizes the destination's ReadFrom
+	// reads with (the last one repeats); copybuf: [size of the buffer given to io.CopyBuffer]
+	Sizes []int `json:"sizes,omitempty"`
+	// copyn: io.CopyN(dst, r, total source bytes + 1 + Extra) — always beyond the end
+	Extra int64 `json:"extra,omitempty"`
 }
 
 type c16Src struct {
 	Script   sreader.Script `json:"script"`
 	Closable bool           `json:"closable"`
+	WT       bool           `json:"wt,omitempty"` // the source itself is an io.WriterTo
 }
 
 type c16Input struct {
-	Kind     string         `json:"kind"` // limit | multi | tee
+	Kind     string         `json:"kind"` // limit | multi | tee | iface
 	N        int64          `json:"n,omitempty"`
 	Script   sreader.Script `json:"script,omitempty"`
+	SrcWT    bool           `json:"src_wt,omitempty"` // limit/tee: the source is also an io.WriterTo
 	Srcs     []c16Src       `json:"srcs,omitempty"`
 	Budget   *int64         `json:"budget,omitempty"`
 	Consumer c16Consumer    `json:"consumer"`
+	Closes   int            `json:"closes,omitempty"` // Close calls after consumption (0 = one)
+	Wrapper  string         `json:"wrapper,omitempty"` // iface: limit | multi | tee
+	Iface    string         `json:"iface,omitempty"`   // iface: e.g. io.WriterTo
 }
 
-// recorder notes the buffer size of every Read the consumer issues.
+// ---------------------------------------------------------------------------------------
+// sources
+
+// wtReader is a scripted reader that is also an io.WriterTo (like bytes.Reader, os.File): its
+// WriteTo drains the script through its own Read with a small buffer.
+type wtReader struct{ *sreader.Reader }
+
+func (r wtReader) WriteTo(w io.Writer) (int64, error) {
+	var sum int64
+	buf := make([]byte, 3)
+	for i := 0; i < 100000; i++ {
+		n, err := r.Reader.Read(buf)
+		if n > 0 {
+			m, werr := w.Write(buf[:n])
+			sum += int64(m)
+			if werr != nil {
+				return sum, werr
+			}
+		}
+		if err == io.EOF {
+			return sum, nil
+		}
+		if err != nil {
+			return sum, err
+		}
+	}
+	return sum, errRunaway
+}
+
+type wtCloser struct{ wtReader }
+
+func (c wtCloser) Close() error { c.Reader.Closes++; return nil }
+
+func c16Source(s sreader.Script, closable, wt bool) (io.Reader, *sreader.Reader) {
+	r := sreader.New(s)
+	switch {
+	case closable && wt:
+		return wtCloser{wtReader{r}}, r
+	case closable:
+		return sreader.Closer{Reader: r}, r
+	case wt:
+		return wtReader{r}, r
+	}
+	return r, r
+}
+
+// ---------------------------------------------------------------------------------------
+// destinations and consumers
+
+// recorder notes the buffer size of every Read the consumer issues (it hides every other
+// method of r: only used where the io package would not look for one).
 type recorder struct {
 	r     io.Reader
 	sizes []int
@@ -45,10 +112,54 @@ func (r *recorder) Read(p []byte) (int, error) {
 	return r.r.Read(p)
 }
 
-// plainWriter hides ReaderFrom so that io.Copy uses its generic 32 KiB loop.
+// plainWriter has no ReadFrom: io.Copy uses its generic 32 KiB loop.
 type plainWriter struct{ buf []byte }
 
 func (w *plainWriter) Write(p []byte) (int, error) { w.buf = append(w.buf, p...); return len(p), nil }
+
+var errRunaway = errors.New("harness: loop bound hit")
+
+// rfWriter is an io.ReaderFrom (like *bytes.Buffer, *os.File, net.TCPConn): io.Copy hands it the
+// source — the wrapper, or whatever a wrapper's WriteTo passes down — and it reads with the
+// scripted buffer sizes, starting over at every ReadFrom call.
+type rfWriter struct {
+	buf   []byte
+	sizes []int
+	calls [][]int // sizes issued, per ReadFrom call
+}
+
+func (w *rfWriter) Write(p []byte) (int, error) { w.buf = append(w.buf, p...); return len(p), nil }
+
+func (w *rfWriter) ReadFrom(r io.Reader) (int64, error) {
+	var sum int64
+	w.calls = append(w.calls, nil)
+	k := len(w.calls) - 1
+	for i := 0; i < 100000; i++ {
+		sz := sizeAt(w.sizes, i)
+		buf := make([]byte, sz)
+		w.calls[k] = append(w.calls[k], sz)
+		n, err := r.Read(buf)
+		w.buf = append(w.buf, buf[:n]...)
+		sum += int64(n)
+		if err == io.EOF {
+			return sum, nil
+		}
+		if err != nil {
+			return sum, err
+		}
+	}
+	return sum, errRunaway
+}
+
+func sizeAt(sizes []int, i int) int {
+	if len(sizes) == 0 {
+		return 1
+	}
+	if i < len(sizes) {
+		return sizes[i]
+	}
+	return sizes[len(sizes)-1]
+}
 
 var errWriter = errors.New("scripted writer failure")
 
@@ -70,42 +181,95 @@ func (w *budgetWriter) Write(p []byte) (int, error) {
 }
 func (w *budgetWriter) Close() error { w.closes++; return nil }
 
-// c16Consume drives r the way the consumer says; returns bytes, final error (nil = clean EOF
-// for readall/copy) and whether the loop hit its safety bound.
-func c16Consume(r io.Reader, c c16Consumer) ([]byte, error, bool) {
+const copyBuf = 32 * 1024
+
+// consumed is what one consumption of a wrapper looked like.
+type consumed struct {
+	out     []byte
+	err     error // io.EOF = clean end (also for the copy family, which reports it as nil)
+	runaway bool
+	// viaWriteTo: the io package called the wrapper's WriteTo.  sizes/dflt then are the buffer
+	// sizes that copies INSIDE it read the sources with; otherwise they are the sizes of the Read
+	// calls on the wrapper itself (then dflt forever).
+	viaWriteTo  bool
+	sizes       []int
+	dflt        int
+	viaByteRead bool
+}
+
+func eofIfNil(err error) error {
+	if err == nil {
+		return io.EOF
+	}
+	return err
+}
+
+// c16Consume drives r — the BARE wrapper — the way the consumer says.  total = number of data
+// bytes the sources carry (for copyn).
+func c16Consume(r io.Reader, c c16Consumer, total int) consumed {
+	_, isWT := r.(io.WriterTo)
+	last := sizeAt(c.Sizes, len(c.Sizes))
 	switch c.Kind {
 	case "readall":
-		b, err := io.ReadAll(r)
-		if err == nil {
-			err = io.EOF
-		}
-		return b, err, false
+		rec := &recorder{r: r} // io.ReadAll only ever calls Read
+		b, err := io.ReadAll(rec)
+		return consumed{out: b, err: eofIfNil(err), sizes: rec.sizes, dflt: 1}
 	case "copy":
 		w := &plainWriter{}
 		_, err := io.Copy(w, r)
-		if err == nil {
-			err = io.EOF
+		return consumed{out: w.buf, err: eofIfNil(err), viaWriteTo: isWT, dflt: copyBuf}
+	case "copyrf":
+		w := &rfWriter{sizes: c.Sizes}
+		_, err := io.Copy(w, r)
+		res := consumed{out: w.buf, err: eofIfNil(err), viaWriteTo: isWT, sizes: c.Sizes, dflt: last,
+			runaway: errors.Is(err, errRunaway)}
+		if !isWT && len(w.calls) == 1 {
+			res.sizes = w.calls[0] // the Reads ReadFrom issued on the wrapper
 		}
-		return w.buf, err, false
+		return res
+	case "copybuf":
+		w := &plainWriter{}
+		_, err := io.CopyBuffer(w, r, make([]byte, last))
+		res := consumed{out: w.buf, err: eofIfNil(err), viaWriteTo: isWT, dflt: last}
+		if isWT {
+			res.dflt = copyBuf // a WriteTo does not get the caller's buffer
+		}
+		return res
+	case "copyn":
+		rec := &recorder{r: r} // io.CopyN wraps r in an io.LimitedReader, which has Read only
+		w := &plainWriter{}
+		_, err := io.CopyN(w, rec, int64(total)+1+c.Extra)
+		return consumed{out: w.buf, err: err, sizes: rec.sizes, dflt: 1}
+	case "bytes":
+		if br, ok := r.(io.ByteReader); ok {
+			var out []byte
+			var sizes []int
+			for i := 0; i < 100000; i++ {
+				sizes = append(sizes, 1)
+				b, err := br.ReadByte()
+				if err != nil {
+					return consumed{out: out, err: err, sizes: sizes, dflt: 1, viaByteRead: true}
+				}
+				out = append(out, b)
+			}
+			return consumed{out: out, runaway: true, sizes: sizes, dflt: 1, viaByteRead: true}
+		}
+		c = c16Consumer{Kind: "loop", Sizes: []int{1}}
+		fallthrough
 	default:
 		var out []byte
+		var sizes []int
 		for i := 0; i < 100000; i++ {
-			sz := 1
-			if len(c.Sizes) > 0 {
-				if i < len(c.Sizes) {
-					sz = c.Sizes[i]
-				} else {
-					sz = c.Sizes[len(c.Sizes)-1]
-				}
-			}
+			sz := sizeAt(c.Sizes, i)
 			buf := make([]byte, sz)
+			sizes = append(sizes, sz)
 			n, err := r.Read(buf)
 			out = append(out, buf[:n]...)
 			if err != nil {
-				return out, err, false
+				return consumed{out: out, err: err, sizes: sizes, dflt: 1}
 			}
 		}
-		return out, nil, true
+		return consumed{out: out, runaway: true, sizes: sizes, dflt: 1}
 	}
 }
 
@@ -127,37 +291,136 @@ func c16Err(err error) (string, bool) {
 	return "EFail", false
 }
 
+// ---------------------------------------------------------------------------------------
+// method sets
+
+var c16Ifaces = []struct {
+	name, coq string
+	has       func(v any) bool
+}{
+	{"io.WriterTo", "IWriterTo", func(v any) bool { _, ok := v.(io.WriterTo); return ok }},
+	{"io.ReaderFrom", "IReaderFrom", func(v any) bool { _, ok := v.(io.ReaderFrom); return ok }},
+	{"io.ByteReader", "IByteReader", func(v any) bool { _, ok := v.(io.ByteReader); return ok }},
+	{"io.ByteScanner", "IByteScanner", func(v any) bool { _, ok := v.(io.ByteScanner); return ok }},
+	{"io.RuneReader", "IRuneReader", func(v any) bool { _, ok := v.(io.RuneReader); return ok }},
+	{"io.RuneScanner", "IRuneScanner", func(v any) bool { _, ok := v.(io.RuneScanner); return ok }},
+	{"io.Seeker", "ISeeker", func(v any) bool { _, ok := v.(io.Seeker); return ok }},
+	{"io.ReaderAt", "IReaderAt", func(v any) bool { _, ok := v.(io.ReaderAt); return ok }},
+	{"io.Writer", "IWriter", func(v any) bool { _, ok := v.(io.Writer); return ok }},
+	{"io.StringWriter", "IStringWriter", func(v any) bool { _, ok := v.(io.StringWriter); return ok }},
+	{"io.ByteWriter", "IByteWriter", func(v any) bool { _, ok := v.(io.ByteWriter); return ok }},
+	{"io.WriterAt", "IWriterAt", func(v any) bool { _, ok := v.(io.WriterAt); return ok }},
+}
+
+var c16Wrappers = []struct{ name, coq string }{{"limit", "WLimit"}, {"multi", "WMulti"}, {"tee", "WTee"}}
+
+func c16Wrapper(name string) any {
+	src, _ := c16Source(nil, true, false)
+	switch name {
+	case "limit":
+		return streams.LimitReadCloser(src.(io.ReadCloser), 1)
+	case "multi":
+		return streams.NewMultiReaderCloser(src)
+	case "tee":
+		return streams.NewTeeReadCloser(src, &budgetWriter{})
+	}
+	panic("c16: bad wrapper " + name)
+}
+
+func c16HasByteReader(name string) bool {
+	_, ok := c16Wrapper(name).(io.ByteReader)
+	return ok
+}
+
+// ---------------------------------------------------------------------------------------
+
 func c16Run(ctx *core.Ctx, in c16Input) {
 	c := hx.Case{Kind: in.Kind, Input: hx.MustJSON(in), Facts: map[string]any{}}
+	ncl := in.Closes
+	if ncl < 1 {
+		ncl = 1
+	}
+	path := func(res consumed) string {
+		switch {
+		case res.viaWriteTo:
+			return "WriteTo"
+		case res.viaByteRead:
+			return "ReadByte"
+		}
+		return "Read"
+	}
 	switch in.Kind {
+	case "iface":
+		var wcoq, icoq string
+		for _, w := range c16Wrappers {
+			if w.name == in.Wrapper {
+				wcoq = w.coq
+			}
+		}
+		has := false
+		for _, i := range c16Ifaces {
+			if i.name == in.Iface {
+				icoq, has = i.coq, i.has(c16Wrapper(in.Wrapper))
+			}
+		}
+		if wcoq == "" || icoq == "" {
+			panic("c16: bad iface input")
+		}
+		// the kind names the wrapper and the interface: a disagreement is reported as
+		// corr:C16/iface:<wrapper>:<interface>
+		c.Kind = "iface:" + in.Wrapper + ":" + in.Iface
+		c.Class = "iface/" + in.Wrapper + "/" + in.Iface
+		c.Observed = map[string]any{"implemented": has}
+		c.Coq = fmt.Sprintf("CIface %s %s %s", wcoq, icoq, hx.CoqBool(has))
+		ctx.Sink.Count("kind=iface")
+		if has {
+			ctx.Sink.Count("iface/" + in.Wrapper + " implements " + in.Iface)
+		}
 	case "limit":
-		src := sreader.New(in.Script)
-		l := streams.LimitReadCloser(sreader.Closer{Reader: src}, in.N)
-		rec := &recorder{r: l}
-		out, err, runaway := c16Consume(rec, in.Consumer)
-		cb := src.Closes
-		_ = l.Close()
-		ca := src.Closes
-		ec, known := c16Err(err)
+		rd, src := c16Source(in.Script, true, in.SrcWT)
+		l := streams.LimitReadCloser(rd.(io.ReadCloser), in.N)
 		data, eof := in.Script.Data()
+		res := c16Consume(l, in.Consumer, len(data))
+		cb := src.Closes
+		for i := 0; i < ncl; i++ {
+			_ = l.Close()
+		}
+		ca := src.Closes
+		ec, known := c16Err(res.err)
 		over := int64(len(data)) > in.N
 		c.Facts["over_limit"] = over
 		c.Facts["ends_eof"] = eof
 		c.Facts["last_is_dataeof"] = len(in.Script) > 0 && in.Script[len(in.Script)-1].K == "dataeof"
+		c.Facts["path"] = path(res)
 		c.Class = fmt.Sprintf("limit/N%d/len%d/%s/%s", in.N, len(data), in.Script.Shape(), in.Consumer.Kind)
 		c.Trivial = len(data) == 0
-		c.Observed = map[string]any{"out_len": len(out), "err": ec, "closes_before": cb, "closes_after": ca}
-		c.Coq = fmt.Sprintf("CLimit %s %s %s 1%%Z %s %s %s %s", hx.CoqZ(in.N), in.Script.Coq(),
-			hx.CoqInts(rec.sizes), hx.CoqBytes(out), ec, hx.CoqZ(int64(cb)), hx.CoqZ(int64(ca)))
-		if runaway || !known {
-			c.Direct, c.Note = 1, fmt.Sprintf("unclassified outcome err=%v runaway=%v", err, runaway)
+		c.Observed = map[string]any{"out_len": len(res.out), "err": ec, "closes_before": cb, "closes_after": ca, "path": path(res)}
+		// the model has Read only: a WriteTo/ReadByte the type may have grown must be
+		// indistinguishable from the Read loop io.Copy would otherwise have run
+		c.Coq = fmt.Sprintf("CLimit %s %s %s %s %s %s %s %s %s", hx.CoqZ(in.N), in.Script.Coq(),
+			hx.CoqInts(res.sizes), hx.CoqZ(int64(res.dflt)), hx.CoqZ(int64(ncl)), hx.CoqBytes(res.out), ec,
+			hx.CoqZ(int64(cb)), hx.CoqZ(int64(ca)))
+		if res.runaway || !known {
+			c.Direct, c.Note = 1, fmt.Sprintf("unclassified outcome err=%v runaway=%v", res.err, res.runaway)
 		}
 		ctx.Sink.Count("kind=limit")
 		ctx.Sink.Count("limit/consumer=" + in.Consumer.Kind)
+		ctx.Sink.Count("limit/path=" + path(res))
+		ctx.Sink.Count(fmt.Sprintf("limit/closes=%d", ncl))
 		if over {
 			ctx.Sink.Count("limit/over")
 		} else {
 			ctx.Sink.Count("limit/within")
+		}
+		if z := zeroOffsets(in.Script); len(z) > 0 {
+			for _, o := range z {
+				switch int64(o) - in.N {
+				case 0:
+					ctx.Sink.Count("limit/zero-length read at offset N")
+				case 1:
+					ctx.Sink.Count("limit/zero-length read at offset N+1")
+				}
+			}
 		}
 		ctx.Sink.Count("err=" + ec)
 	case "multi":
@@ -167,31 +430,19 @@ func c16Run(ctx *core.Ctx, in c16Input) {
 		totalLen := 0
 		shape := ""
 		for i, s := range in.Srcs {
-			r := sreader.New(s.Script)
+			rd, r := c16Source(s.Script, s.Closable, s.WT)
 			srcs = append(srcs, r)
-			if s.Closable {
-				readers = append(readers, sreader.Closer{Reader: r})
-			} else {
-				readers = append(readers, r)
-			}
+			readers = append(readers, rd)
 			coqSrcs[i] = fmt.Sprintf("(%s, %s)", s.Script.Coq(), hx.CoqBool(s.Closable))
 			d, _ := s.Script.Data()
 			totalLen += len(d)
 			shape += s.Script.Shape() + fmt.Sprintf("%v|", s.Closable)
+			if s.WT {
+				ctx.Sink.Count("multi/source is io.WriterTo")
+			}
 		}
 		mr := streams.NewMultiReaderCloser(readers...)
-		var out []byte
-		var err error
-		var runaway bool
-		var sizes []int
-		writeto := in.Consumer.Kind == "copy"
-		if writeto {
-			out, err, runaway = c16Consume(mr, in.Consumer) // io.Copy → WriteTo
-		} else {
-			rec := &recorder{r: mr}
-			out, err, runaway = c16Consume(rec, in.Consumer)
-			sizes = rec.sizes
-		}
+		res := c16Consume(mr, in.Consumer, totalLen)
 		counts := func() []int {
 			cs := make([]int, len(srcs))
 			for i, s := range srcs {
@@ -200,56 +451,84 @@ func c16Run(ctx *core.Ctx, in c16Input) {
 			return cs
 		}
 		cb := counts()
-		_ = mr.Close()
+		for i := 0; i < ncl; i++ {
+			_ = mr.Close()
+		}
 		ca := counts()
-		ec, known := c16Err(err)
-		c.Facts["writeto"] = writeto
+		ec, known := c16Err(res.err)
+		c.Facts["writeto"] = res.viaWriteTo
+		c.Facts["path"] = path(res)
 		c.Class = fmt.Sprintf("multi/%s/%s", shape, in.Consumer.Kind)
 		c.Trivial = totalLen == 0
-		c.Observed = map[string]any{"out_len": len(out), "err": ec, "closes_before": cb, "closes_after": ca}
-		c.Coq = fmt.Sprintf("CMulti %s %s %s 1%%Z %s %s %s %s", hx.CoqList(coqSrcs), hx.CoqBool(writeto),
-			hx.CoqInts(sizes), hx.CoqBytes(out), ec, hx.CoqInts(cb), hx.CoqInts(ca))
-		if runaway || !known {
-			c.Direct, c.Note = 1, fmt.Sprintf("unclassified outcome err=%v runaway=%v", err, runaway)
+		c.Observed = map[string]any{"out_len": len(res.out), "err": ec, "closes_before": cb, "closes_after": ca, "path": path(res)}
+		c.Coq = fmt.Sprintf("CMulti %s %s %s %s %s %s %s %s %s", hx.CoqList(coqSrcs), hx.CoqBool(res.viaWriteTo),
+			hx.CoqInts(res.sizes), hx.CoqZ(int64(res.dflt)), hx.CoqZ(int64(ncl)), hx.CoqBytes(res.out), ec,
+			hx.CoqInts(cb), hx.CoqInts(ca))
+		if res.runaway || !known {
+			c.Direct, c.Note = 1, fmt.Sprintf("unclassified outcome err=%v runaway=%v", res.err, res.runaway)
 		}
 		ctx.Sink.Count("kind=multi")
 		ctx.Sink.Count("multi/consumer=" + in.Consumer.Kind)
+		ctx.Sink.Count("multi/path=" + path(res))
 		ctx.Sink.Count(fmt.Sprintf("multi/sources=%d", len(in.Srcs)))
+		ctx.Sink.Count(fmt.Sprintf("multi/closes=%d", ncl))
 		ctx.Sink.Count("err=" + ec)
 	case "tee":
-		src := sreader.New(in.Script)
+		rd, src := c16Source(in.Script, true, in.SrcWT)
 		var budget *int64
 		if in.Budget != nil {
 			b := *in.Budget
 			budget = &b
 		}
 		w := &budgetWriter{budget: budget}
-		t := streams.NewTeeReadCloser(sreader.Closer{Reader: src}, w)
-		rec := &recorder{r: t}
-		out, err, runaway := c16Consume(rec, in.Consumer)
-		_ = t.Close()
-		ec, known := c16Err(err)
+		t := streams.NewTeeReadCloser(rd, w)
 		data, _ := in.Script.Data()
+		res := c16Consume(t, in.Consumer, len(data))
+		for i := 0; i < ncl; i++ {
+			_ = t.Close()
+		}
+		ec, known := c16Err(res.err)
 		bs := "None"
 		if in.Budget != nil {
 			bs = "(Some " + hx.CoqZ(*in.Budget) + ")"
 		}
+		c.Facts["path"] = path(res)
 		c.Class = fmt.Sprintf("tee/len%d/%s/%s/%s", len(data), in.Script.Shape(), in.Consumer.Kind, bs)
 		c.Trivial = len(data) == 0
-		c.Observed = map[string]any{"out_len": len(out), "err": ec, "written_len": len(w.buf),
-			"src_closes": src.Closes, "w_closes": w.closes}
-		c.Coq = fmt.Sprintf("CTee %s %s %s 1%%Z %s %s %s %s %s", in.Script.Coq(), bs, hx.CoqInts(rec.sizes),
-			hx.CoqBytes(out), ec, hx.CoqBytes(w.buf), hx.CoqZ(int64(src.Closes)), hx.CoqZ(int64(w.closes)))
-		if runaway || !known {
-			c.Direct, c.Note = 1, fmt.Sprintf("unclassified outcome err=%v runaway=%v", err, runaway)
+		c.Observed = map[string]any{"out_len": len(res.out), "err": ec, "written_len": len(w.buf),
+			"src_closes": src.Closes, "w_closes": w.closes, "path": path(res)}
+		c.Coq = fmt.Sprintf("CTee %s %s %s %s %s %s %s %s %s %s", in.Script.Coq(), bs, hx.CoqInts(res.sizes),
+			hx.CoqZ(int64(res.dflt)), hx.CoqZ(int64(ncl)), hx.CoqBytes(res.out), ec, hx.CoqBytes(w.buf),
+			hx.CoqZ(int64(src.Closes)), hx.CoqZ(int64(w.closes)))
+		if res.runaway || !known {
+			c.Direct, c.Note = 1, fmt.Sprintf("unclassified outcome err=%v runaway=%v", res.err, res.runaway)
 		}
 		ctx.Sink.Count("kind=tee")
 		ctx.Sink.Count("tee/consumer=" + in.Consumer.Kind)
+		ctx.Sink.Count("tee/path=" + path(res))
+		ctx.Sink.Count(fmt.Sprintf("tee/closes=%d", ncl))
 		ctx.Sink.Count("err=" + ec)
 	default:
 		panic("c16: bad kind " + in.Kind)
 	}
 	ctx.Sink.Add(c)
+}
+
+// zeroOffsets: the data offsets at which the script has a zero-length read.
+func zeroOffsets(s sreader.Script) []int {
+	var out []int
+	off := 0
+	for _, it := range s {
+		switch it.K {
+		case "zero":
+			out = append(out, off)
+		case "data", "dataeof":
+			off += len(it.D)
+		case "fail":
+			return out
+		}
+	}
+	return out
 }
 
 func seqBytes(start, n int) []byte {
@@ -260,17 +539,98 @@ func seqBytes(start, n int) []byte {
 	return b
 }
 
-func c16Consumers(r *hx.Rand, n int) []c16Consumer {
-	sizes := make([]int, r.Range(1, 6))
-	for i := range sizes {
-		sizes[i] = r.Range(1, n+2)
+// zeroScript: data with nz zero-length reads exactly at offset z (0 <= z <= len(data): z =
+// len(data) puts them between the last byte and the end).  Either side of z is one chunk, or
+// 1-byte chunks.  end: 0 = EOF alone, 1 = EOF with the last data, 2 = one more zero-length read
+// and then EOF alone, 3 = failure.
+func zeroScript(data []byte, z, nz int, oneByte bool, end int) sreader.Script {
+	var s sreader.Script
+	chunks := func(d []byte) {
+		if len(d) == 0 {
+			return
+		}
+		if !oneByte {
+			s = append(s, sreader.Item{K: "data", D: append([]byte(nil), d...)})
+			return
+		}
+		for _, b := range d {
+			s = append(s, sreader.Item{K: "data", D: []byte{b}})
+		}
 	}
-	return []c16Consumer{{Kind: "loop", Sizes: sizes}, {Kind: "loop", Sizes: []int{1}},
-		{Kind: "readall"}, {Kind: "copy"}}
+	chunks(data[:z])
+	for i := 0; i < nz; i++ {
+		s = append(s, sreader.Item{K: "zero"})
+	}
+	chunks(data[z:])
+	switch end {
+	case 1:
+		if n := len(s); n > 0 && s[n-1].K == "data" {
+			s[n-1].K = "dataeof"
+		} else {
+			s = append(s, sreader.Item{K: "dataeof"})
+		}
+	case 2:
+		s = append(s, sreader.Item{K: "zero"})
+	case 3:
+		s = append(s, sreader.Item{K: "fail"})
+	}
+	return s
+}
+
+// consumer kinds: the first four are the Read family, the last three hand the BARE wrapper to the
+// io package's copy functions (which look for fast-path methods).
+const nReadKinds = 4
+
+func c16Consumers(r *hx.Rand, n int, byteReader bool) []c16Consumer {
+	rs := func() []int {
+		sizes := make([]int, r.Range(1, 6))
+		for i := range sizes {
+			sizes[i] = r.Range(1, n+2)
+		}
+		return sizes
+	}
+	extra := int64(0)
+	switch r.Intn(3) {
+	case 1:
+		extra = int64(r.Range(1, 5))
+	case 2:
+		extra = 1 << 20
+	}
+	cs := []c16Consumer{{Kind: "loop", Sizes: rs()}, {Kind: "loop", Sizes: []int{1}}, {Kind: "readall"},
+		{Kind: "copyn", Extra: extra},
+		{Kind: "copy"}, {Kind: "copyrf", Sizes: rs()}, {Kind: "copybuf", Sizes: []int{r.Range(1, n+2)}}}
+	if byteReader {
+		cs = append(cs, c16Consumer{Kind: "bytes"})
+	}
+	return cs
+}
+
+// copyAndOne: every copy-family consumer (and ReadByte when there) plus one of the Read family.
+func copyAndOne(r *hx.Rand, cons []c16Consumer) []c16Consumer {
+	out := append([]c16Consumer{cons[r.Intn(nReadKinds)]}, cons[nReadKinds:]...)
+	return out
+}
+
+func c16Closes(r *hx.Rand) int {
+	switch {
+	case r.Chance(1, 16):
+		return 3
+	case r.Chance(1, 4):
+		return 2
+	}
+	return 1
 }
 
 func c16Gen(ctx *core.Ctx) {
 	r := ctx.R
+	// --- method sets: every wrapper x every optional interface of package io
+	brOf := map[string]bool{}
+	for _, w := range c16Wrappers {
+		brOf[w.name] = c16HasByteReader(w.name)
+		for _, i := range c16Ifaces {
+			c16Run(ctx, c16Input{Kind: "iface", Wrapper: w.name, Iface: i.name})
+		}
+	}
 	// --- limit: N in -1..16 x len 0..N+3; compositions exhaustive up to a length bound.
 	exhLen := 5
 	sample := 3
@@ -289,43 +649,91 @@ func c16Gen(ctx *core.Ctx) {
 			for style := 0; style <= 4; style++ {
 				if exhaustive {
 					for _, parts := range partsList {
-						cons := c16Consumers(r, n)
+						cons := c16Consumers(r, n, brOf["limit"])
 						// every composition with one random consumer; boundary ones with all
 						pick := []c16Consumer{cons[r.Intn(len(cons))]}
 						if ln >= n && ln <= n+1 || (ctx.Thorough && ln <= 7) {
 							pick = cons
 						}
 						for _, c := range pick {
-							c16Run(ctx, c16Input{Kind: "limit", N: int64(n), Script: sreader.FromParts(parts, style), Consumer: c})
+							c16Run(ctx, c16Input{Kind: "limit", N: int64(n), Script: sreader.FromParts(parts, style),
+								Consumer: c, Closes: c16Closes(r), SrcWT: r.Chance(1, 8)})
 						}
 					}
 					ctx.Sink.Count("limit/exhaustive_compositions")
 				} else {
 					for k := 0; k < sample; k++ {
-						cons := c16Consumers(r, n)
+						cons := c16Consumers(r, n, brOf["limit"])
 						c16Run(ctx, c16Input{Kind: "limit", N: int64(n), Script: sreader.Gen(r, data, style, 1+r.Intn(ln)),
-							Consumer: cons[r.Intn(len(cons))]})
+							Consumer: cons[r.Intn(len(cons))], Closes: c16Closes(r), SrcWT: r.Chance(1, 8)})
+					}
+				}
+			}
+		}
+	}
+	// --- limit: a zero-length read at EVERY offset 0..len of sources around the limit (in
+	// particular exactly at N, where the look-ahead byte is asked for, and at N+1), every end
+	// style, through the whole copy family and one of the Read family
+	for n := 0; n <= 16; n++ {
+		for _, ln := range []int{n - 1, n, n + 1, n + 2, n + 3} {
+			if ln < 0 || (!ctx.Thorough && (ln == n-1 || ln == n+3) && !r.Chance(1, 3)) {
+				continue
+			}
+			data := seqBytes(n, ln)
+			for z := 0; z <= ln; z++ {
+				ends := []int{0, 1, 2, 3}
+				if !ctx.Thorough {
+					// two of the four ends per offset, all four at the limit
+					if z != n && z != n+1 {
+						k := r.Intn(4)
+						ends = []int{k, (k + 1 + r.Intn(3)) % 4}
+					}
+				}
+				for _, end := range ends {
+					nz := 1
+					if r.Chance(1, 4) {
+						nz = 2
+					}
+					script := zeroScript(data, z, nz, r.Chance(1, 3), end)
+					cons := c16Consumers(r, n, brOf["limit"])
+					pick := copyAndOne(r, cons)
+					if ctx.Thorough {
+						pick = cons
+					}
+					for _, c := range pick {
+						c16Run(ctx, c16Input{Kind: "limit", N: int64(n), Script: script, Consumer: c,
+							Closes: c16Closes(r), SrcWT: r.Chance(1, 8)})
 					}
 				}
 			}
 		}
 	}
 	// larger random ones
-	big := 40
+	big := 60
 	if ctx.Thorough {
-		big = 2000
+		big = 3000
 	}
 	for k := 0; k < big; k++ {
 		n := r.Range(17, 300)
 		ln := n + r.Range(-3, 3)
-		cons := c16Consumers(r, n)
-		c16Run(ctx, c16Input{Kind: "limit", N: int64(n), Script: sreader.Gen(r, seqBytes(k, ln), r.Intn(5), r.Range(1, ln+1)),
-			Consumer: cons[r.Intn(len(cons))]})
+		cons := c16Consumers(r, n, brOf["limit"])
+		var script sreader.Script
+		if r.Chance(1, 2) {
+			z := []int{n, n + 1, r.Intn(ln + 1)}[r.Intn(3)]
+			if z > ln {
+				z = ln
+			}
+			script = zeroScript(seqBytes(k, ln), z, 1+r.Intn(2), false, r.Intn(4))
+		} else {
+			script = sreader.Gen(r, seqBytes(k, ln), r.Intn(5), r.Range(1, ln+1))
+		}
+		c16Run(ctx, c16Input{Kind: "limit", N: int64(n), Script: script,
+			Consumer: cons[r.Intn(len(cons))], Closes: c16Closes(r), SrcWT: r.Chance(1, 8)})
 	}
 	// --- multi: 0..4 sources
-	multi := 300
+	multi := 420
 	if ctx.Thorough {
-		multi = 20000
+		multi = 28000
 	}
 	for k := 0; k < multi; k++ {
 		ns := r.Intn(5)
@@ -337,16 +745,55 @@ func c16Gen(ctx *core.Ctx) {
 			if style == 3 && !r.Chance(1, 4) {
 				style = 0
 			}
-			srcs = append(srcs, c16Src{Script: sreader.Gen(r, seqBytes(off, ln), style, 1+r.Intn(ln+1)), Closable: !r.Chance(1, 4)})
+			srcs = append(srcs, c16Src{Script: sreader.Gen(r, seqBytes(off, ln), style, 1+r.Intn(ln+1)),
+				Closable: !r.Chance(1, 4), WT: r.Chance(1, 5)})
 			off += ln
 		}
-		cons := c16Consumers(r, 8)
-		c16Run(ctx, c16Input{Kind: "multi", Srcs: srcs, Consumer: cons[k%len(cons)]})
+		cons := c16Consumers(r, 8, brOf["multi"])
+		c16Run(ctx, c16Input{Kind: "multi", Srcs: srcs, Consumer: cons[k%len(cons)], Closes: c16Closes(r)})
+	}
+	// multi: two or three short sources, a zero-length read at every offset of one of them
+	// (also before its first byte and between its last byte and its end), every end style
+	maxLen := 2
+	if ctx.Thorough {
+		maxLen = 4
+	}
+	for la := 0; la <= maxLen; la++ {
+		for lb := 0; lb <= maxLen; lb++ {
+			for which := 0; which < 2; which++ {
+				lz := []int{la, lb}[which]
+				for z := 0; z <= lz; z++ {
+					for end := 0; end < 4; end++ {
+						other := r.Intn(3) // the other source: plain ends only (a failure would hide the rest)
+						a := zeroScript(seqBytes(0, la), 0, 0, r.Chance(1, 2), other)
+						b := zeroScript(seqBytes(la, lb), 0, 0, r.Chance(1, 2), other)
+						if which == 0 {
+							a = zeroScript(seqBytes(0, la), z, 1+r.Intn(2), r.Chance(1, 2), end)
+						} else {
+							b = zeroScript(seqBytes(la, lb), z, 1+r.Intn(2), r.Chance(1, 2), end)
+						}
+						srcs := []c16Src{{Script: a, Closable: !r.Chance(1, 4), WT: r.Chance(1, 6)},
+							{Script: b, Closable: !r.Chance(1, 4), WT: r.Chance(1, 6)}}
+						if r.Chance(1, 3) {
+							srcs = append(srcs, c16Src{Script: sreader.Gen(r, seqBytes(la+lb, 2), r.Intn(3), 2), Closable: true})
+						}
+						cons := c16Consumers(r, 4, brOf["multi"])
+						pick := copyAndOne(r, cons)
+						if ctx.Thorough {
+							pick = cons
+						}
+						for _, c := range pick {
+							c16Run(ctx, c16Input{Kind: "multi", Srcs: srcs, Consumer: c, Closes: c16Closes(r)})
+						}
+					}
+				}
+			}
+		}
 	}
 	// --- tee
-	tee := 300
+	tee := 420
 	if ctx.Thorough {
-		tee = 20000
+		tee = 28000
 	}
 	for k := 0; k < tee; k++ {
 		ln := r.Intn(14)
@@ -355,9 +802,35 @@ func c16Gen(ctx *core.Ctx) {
 			b := int64(r.Intn(4))
 			budget = &b
 		}
-		cons := c16Consumers(r, 8)
+		cons := c16Consumers(r, 8, brOf["tee"])
 		c16Run(ctx, c16Input{Kind: "tee", Script: sreader.Gen(r, seqBytes(k, ln), r.Intn(5), 1+r.Intn(ln+1)), Budget: budget,
-			Consumer: cons[r.Intn(len(cons))]})
+			Consumer: cons[k%len(cons)], Closes: c16Closes(r), SrcWT: r.Chance(1, 8)})
+	}
+	// tee: a zero-length read at every offset, every end style, the copy family
+	maxLen = 5
+	if ctx.Thorough {
+		maxLen = 9
+	}
+	for ln := 0; ln <= maxLen; ln++ {
+		for z := 0; z <= ln; z++ {
+			for end := 0; end < 4; end++ {
+				var budget *int64
+				if r.Chance(1, 5) {
+					b := int64(r.Intn(3))
+					budget = &b
+				}
+				script := zeroScript(seqBytes(ln, ln), z, 1+r.Intn(2), r.Chance(1, 2), end)
+				cons := c16Consumers(r, ln, brOf["tee"])
+				pick := copyAndOne(r, cons)
+				if ctx.Thorough {
+					pick = cons
+				}
+				for _, c := range pick {
+					c16Run(ctx, c16Input{Kind: "tee", Script: script, Budget: budget, Consumer: c,
+						Closes: c16Closes(r), SrcWT: r.Chance(1, 8)})
+				}
+			}
+		}
 	}
 }
 
